@@ -81,16 +81,25 @@ fn match_path_segments(segments: &[&str], old_segments: &[PathSegment]) -> Optio
     segments_iter.next().is_none().then_some(optionals)
 }
 
+/// Strip the segments of `prefix` from the start of `path`, segments must match exactly (`/english` does not start with `en`).
+fn strip_prefix_segments<'a>(path: &'a str, prefix: &str) -> Option<&'a str> {
+    let mut path_rest = path;
+    for prefix_segment in prefix.split('/').filter(|s| !s.is_empty()) {
+        path_rest = path_rest
+            .trim_start_matches('/')
+            .strip_prefix(prefix_segment)
+            .filter(|rest| rest.is_empty() || rest.starts_with('/'))?;
+    }
+    Some(path_rest)
+}
+
 fn get_locale_from_path<L: Locale>(path: &str, base_path: &str) -> Option<L> {
-    let base_path = base_path.trim_start_matches('/');
-    let stripped_path = path
-        .trim_start_matches('/')
-        .strip_prefix(base_path)?
-        .trim_start_matches('/');
+    let stripped_path = strip_prefix_segments(path, base_path)?;
+    let first_segment = stripped_path.split('/').find(|s| !s.is_empty())?;
     L::get_all()
         .iter()
         .copied()
-        .find(|l| stripped_path.starts_with(l.as_str()))
+        .find(|l| l.as_str() == first_segment)
 }
 
 fn construct_path_segments<'b, 'p: 'b>(
@@ -174,11 +183,11 @@ fn get_new_path<L: Locale>(
         if new_locale != L::default() {
             path_builder.push(new_locale.as_str());
         }
-        if let Some(path_rest) = path_name.strip_prefix(base_path) {
+        if let Some(path_rest) = strip_prefix_segments(path_name, base_path) {
             let path_rest = match locale {
                 None => path_rest,
                 Some(l) => {
-                    if let Some(path_rest) = path_rest.strip_prefix(l.as_str()) {
+                    if let Some(path_rest) = strip_prefix_segments(path_rest, l.as_str()) {
                         path_rest
                     } else {
                         path_rest // Should happen only if l == L::default()
